@@ -173,6 +173,64 @@ func parseReq(id string) (reqInfo, bool) {
 	return reqInfo{ID: id, Tok: p[0], What: p[1], Round: n, Gated: p[3] == "g"}, true
 }
 
+// carry is what the middlewares hand inward next to the request: who the request is and what happened to its context
+// on the way (it travels as a context value of our own, so it survives a middleware that detaches the context).
+type carry struct {
+	ri       reqInfo
+	ok       bool // ri is valid (not a handshake / fence request)
+	detached bool // some middleware above handed inward a context that does not descend from the one it received
+}
+
+type kStyle struct{ pos int }
+
+// Middleware styles: what a middleware does with the context it passes inward.
+//
+//	pass            next(ctx) (plus a value of its own)
+//	derive          context.WithValue + context.WithTimeout on the incoming context
+//	detach          a fresh context.Background() carrying only what the middleware copies explicitly: the values the HTTP
+//	                context functions derived (and our request identity), NOT the library's session / server / sender keys -
+//	                what applications do to decouple the handler's lifetime from the connection
+//	detach-timeout  the same with a timeout on the fresh context
+//	goroutine       next runs in a goroutine of its own, the middleware waits for it
+//
+// Not exercised: a middleware that replaces the context with one derived from ANOTHER request's context. The statement
+// promises what the library hands to the code processing a request; application code that itself smuggles another
+// request's context in is outside of it.
+var allStyles = []string{"pass", "derive", "detach", "detach-timeout", "goroutine"}
+
+const mwTimeout = 30 * time.Minute // never meant to fire: far beyond the check's watchdog
+
+func isDetach(style string) bool { return style == "detach" || style == "detach-timeout" }
+
+func stackName(stack []string) string {
+	if len(stack) == 0 {
+		return "none"
+	}
+	return strings.Join(stack, ">")
+}
+
+// handInward builds the context a middleware of the given style passes to next.
+func handInward(ctx context.Context, style string, pos int) (context.Context, context.CancelFunc) {
+	switch style {
+	case "derive":
+		return context.WithTimeout(context.WithValue(ctx, kStyle{pos}, style), mwTimeout)
+	case "detach", "detach-timeout":
+		fresh, cancel := context.Background(), context.CancelFunc(func() {})
+		if style == "detach-timeout" {
+			fresh, cancel = context.WithTimeout(fresh, mwTimeout)
+		}
+		// the white list: the values the HTTP context functions derived from this request
+		for _, k := range []interface{}{k1{}, k2{}, k3{}} {
+			if v := ctx.Value(k); v != nil {
+				fresh = context.WithValue(fresh, k, v)
+			}
+		}
+		return fresh, cancel
+	default: // pass, goroutine
+		return context.WithValue(ctx, kStyle{pos}, style), func() {}
+	}
+}
+
 type sessView struct {
 	Has bool   `json:"has"`
 	Ptr string `json:"ptr,omitempty"`
@@ -229,7 +287,11 @@ type obs struct {
 	ReqV     dataRead `json:"req_after_gate"`
 	Mine     dataRead `json:"stage_key_after_gate"`
 	Waited   bool     `json:"waited_at_gate"`
-	Released bool     `json:"held_until_released"` // left the gate because the harness opened it (not a watchdog / cancellation)
+	Released bool     `json:"held_until_released"`                  // left the gate because the harness opened it (not a watchdog / cancellation)
+	Detached bool     `json:"below_detaching_middleware,omitempty"` // the context this stage received went through a detaching middleware
+	Style    string   `json:"middleware_style,omitempty"`           // middleware stages: what this middleware does with the context
+	Stack    string   `json:"middleware_stack,omitempty"`
+	Mode     string   `json:"mode,omitempty"` // "sequential": one client at a time, one request at a time
 }
 
 // scen is the state of one scenario (one server instance).
@@ -237,6 +299,12 @@ type scen struct {
 	kind   kit.Kind
 	K, F   int
 	prefix string // gate name prefix, unique per scenario
+
+	stack      []string     // middleware styles, outermost (first registered) first; the classic scenarios use {"pass"}
+	sequential bool         // one client at a time, one request at a time (client B does not even exist while A is served)
+	extended   bool         // a scenario of the middleware-style sweep (own evidence keys)
+	cur        atomic.Value // sequential mode: the reqInfo of the one request in flight
+	curBroken  atomic.Bool  // a request was given up on (watchdog): "the one request in flight" is not known any more
 
 	released sync.Map // gate name -> true, set by the harness right before it opens the gate
 
@@ -250,7 +318,7 @@ type scen struct {
 	noteWaits int
 }
 
-type stageStat struct{ withSession, ownReads, bad int }
+type stageStat struct{ withSession, ownReads, bad, detachedOwn int }
 
 // open releases a gate and says so (a handler that leaves its wait earlier was not held until the release).
 func (sc *scen) open(name string) {
@@ -292,6 +360,37 @@ func (sc *scen) noteCount() int64 {
 	return int64(sc.notes)
 }
 
+func (sc *scen) mode() string {
+	if sc.sequential {
+		return "sequential"
+	}
+	return "overlapping"
+}
+
+// detaches: some middleware of the stack hands inward a context that does not descend from the incoming one.
+func (sc *scen) detaches() bool {
+	for _, s := range sc.stack {
+		if isDetach(s) {
+			return true
+		}
+	}
+	return false
+}
+
+// identity tells which request the code holding ctx runs for, where the request itself does not say: from what the
+// middlewares handed down or, in sequential mode, from the harness (exactly one request is in flight).
+func (sc *scen) identity(ctx context.Context) (reqInfo, bool) {
+	if c, ok := ctx.Value(kReq{}).(carry); ok {
+		return c.ri, c.ok
+	}
+	if sc.sequential && !sc.curBroken.Load() {
+		if ri, ok := sc.cur.Load().(reqInfo); ok {
+			return ri, true
+		}
+	}
+	return reqInfo{}, false
+}
+
 func (sc *scen) callGate(round int) string { return fmt.Sprintf("%s-%d", sc.prefix, round) }
 func (sc *scen) stageGate(what string, round int) string {
 	return fmt.Sprintf("%s-%d/%s", sc.prefix, round, what)
@@ -299,8 +398,14 @@ func (sc *scen) stageGate(what string, round int) string {
 
 // observe is run by every stage. hold is what separates the writes from the reads: the gate of the round (all K requests
 // of the round are inside when it opens) or, for the middleware, the rest of the request's processing.
-func (sc *scen) observe(ctx context.Context, stage string, ri reqInfo, attrib, writeOwner bool, hold func() (bool, bool)) {
-	o := obs{Stage: stage, Req: ri, Attrib: attrib, Tok: tokOf(ctx)}
+func (sc *scen) observe(ctx context.Context, stage string, ri reqInfo, attrib, writeOwner bool, hold func() (bool, bool), style ...string) {
+	o := obs{Stage: stage, Req: ri, Attrib: attrib, Tok: tokOf(ctx), Stack: stackName(sc.stack), Mode: sc.mode()}
+	if c, ok := ctx.Value(kReq{}).(carry); ok {
+		o.Detached = c.detached
+	}
+	if len(style) > 0 {
+		o.Style = style[0]
+	}
 	o.Tok2, _ = ctx.Value(k2{}).(string)
 	o.Chain, _ = ctx.Value(k3{}).(string)
 	gs, _ := mcp.GetSessionFromContext(ctx)
@@ -342,23 +447,55 @@ func (sc *scen) holdAt(ctx context.Context, ri reqInfo, ok bool) func() (bool, b
 
 func build(sc *scen) *kit.Instance {
 	kind, K, F := sc.kind, sc.K, sc.F
-	middleware := func(next mcp.HandlerFunc) mcp.HandlerFunc {
-		return func(ctx context.Context, req *mcp.JSONRPCRequest) (resp mcp.JSONRPCMessage, err error) {
-			ri, ok := parseReq(fmt.Sprint(req.ID))
-			if !ok {
-				return next(ctx, req) // handshake / fence requests
-			}
-			sc.observe(ctx, "middleware", ri, true, true, func() (bool, bool) {
-				resp, err = next(context.WithValue(ctx, kReq{}, ri), req)
-				return false, false
-			})
-			return resp, err
+	// One middleware per entry of sc.stack, the first one outermost. Every one of them treats EVERY request (handshake and
+	// fence requests included) in its style; requests with an identity are observed: the outermost middleware is the stage
+	// "middleware" (it notes the owner on the session), the others are "middleware-inner".
+	var middlewares []mcp.Middleware
+	for pos, style := range sc.stack {
+		pos, style := pos, style
+		stage := "middleware"
+		if pos > 0 {
+			stage = "middleware-inner"
 		}
+		middlewares = append(middlewares, func(next mcp.HandlerFunc) mcp.HandlerFunc {
+			return func(ctx context.Context, req *mcp.JSONRPCRequest) (resp mcp.JSONRPCMessage, err error) {
+				c, has := ctx.Value(kReq{}).(carry)
+				if !has {
+					c.ri, c.ok = parseReq(fmt.Sprint(req.ID))
+				}
+				inner := func() {
+					in, cancel := handInward(ctx, style, pos)
+					defer cancel()
+					ci := c
+					ci.detached = c.detached || isDetach(style)
+					in = context.WithValue(in, kReq{}, ci)
+					if style == "goroutine" {
+						done := make(chan struct{})
+						go func() {
+							defer close(done)
+							resp, err = next(in, req)
+						}()
+						<-done
+						return
+					}
+					resp, err = next(in, req)
+				}
+				if !c.ok {
+					inner()
+					return resp, err
+				}
+				sc.observe(ctx, stage, c.ri, true, pos == 0, func() (bool, bool) {
+					inner()
+					return false, false
+				}, style)
+				return resp, err
+			}
+		})
 	}
 	// filterStage: what a list filter sees of the request it is evaluated for (the request identity comes down from the
-	// middleware through the context).
+	// middlewares through the context; without a middleware it is known only when one request is in flight at a time).
 	filterStage := func(ctx context.Context, method string) {
-		ri, ok := ctx.Value(kReq{}).(reqInfo)
+		ri, ok := sc.identity(ctx)
 		sc.observe(ctx, "filter|"+method, ri, ok, false, sc.holdAt(ctx, ri, ok))
 	}
 	toolFilter := func(ctx context.Context, tools []*mcp.Tool) []*mcp.Tool {
@@ -393,7 +530,7 @@ func build(sc *scen) *kit.Instance {
 	}
 	var in *kit.Instance
 	if kind == kit.LSSE {
-		in = kit.Start(kind, kit.Opts{SSEOpts: []mcp.SSEOption{mcp.WithSSEContextFunc(both), mcp.WithSSEToolListFilter(toolFilter), mcp.WithSSEPromptListFilter(promptFilter), mcp.WithSSEResourceListFilter(resFilter), mcp.WithSSEMiddleware(middleware)}})
+		in = kit.Start(kind, kit.Opts{SSEOpts: []mcp.SSEOption{mcp.WithSSEContextFunc(both), mcp.WithSSEToolListFilter(toolFilter), mcp.WithSSEPromptListFilter(promptFilter), mcp.WithSSEResourceListFilter(resFilter), mcp.WithSSEMiddleware(middlewares...)}})
 	} else {
 		// F context functions, registered one option call at a time (the way an application composes them)
 		so := []mcp.ServerOption{mcp.WithHTTPContextFunc(ctxFn1B)}
@@ -403,7 +540,15 @@ func build(sc *scen) *kit.Instance {
 		for i := 3; i <= F; i++ {
 			so = append(so, mcp.WithHTTPContextFunc(extraFn(i)))
 		}
-		so = append(so, mcp.WithToolListFilter(toolFilter), mcp.WithPromptListFilter(promptFilter), mcp.WithResourceListFilter(resFilter), mcp.WithMiddleware(middleware))
+		so = append(so, mcp.WithToolListFilter(toolFilter), mcp.WithPromptListFilter(promptFilter), mcp.WithResourceListFilter(resFilter))
+		if len(middlewares) <= 2 {
+			so = append(so, mcp.WithMiddleware(middlewares...))
+		} else {
+			// longer stacks are registered one option call at a time
+			for _, m := range middlewares {
+				so = append(so, mcp.WithMiddleware(m))
+			}
+		}
 		in = kit.Start(kind, kit.Opts{ServerOpts: so})
 	}
 	names := []string{"all", "even", "odd"}
@@ -467,7 +612,7 @@ func build(sc *scen) *kit.Instance {
 		return &mcp.GetPromptResult{Description: "ok"}, nil
 	})
 	in.RegisterResource(&mcp.Resource{URI: "res://ctxecho", Name: "ctxecho-r"}, func(ctx context.Context, req *mcp.ReadResourceRequest) (mcp.ResourceContents, error) {
-		ri, ok := ctx.Value(kReq{}).(reqInfo)
+		ri, ok := sc.identity(ctx)
 		sc.observe(ctx, "resource-handler", ri, ok, false, sc.holdAt(ctx, ri, ok))
 		return mcp.TextResourceContents{URI: "res://ctxecho", Text: "ok"}, nil
 	})
@@ -534,12 +679,20 @@ var stageOfWhat = map[string]string{
 
 func stateless(kind kit.Kind) bool { return kind == kit.SLJSON || kind == kit.SLSSE }
 
+// scenario is the classic configuration: one pass-through middleware, K clients overlapping.
 func scenario(r *vh.Run, kind kit.Kind, K, rounds int, Fopt ...int) {
 	F := 2
 	if len(Fopt) > 0 && kind != kit.LSSE {
 		F = Fopt[0]
 	}
-	sc := &scen{kind: kind, K: K, F: F, prefix: fmt.Sprintf("g-%s-%d-%d", kind, K, F)}
+	run(r, &scen{kind: kind, K: K, F: F, stack: []string{"pass"}}, rounds)
+}
+
+var scenarioSeq atomic.Int64
+
+func run(r *vh.Run, sc *scen, rounds int) {
+	kind, K, F := sc.kind, sc.K, sc.F
+	sc.prefix = fmt.Sprintf("g%d-%s-%d-%d", scenarioSeq.Add(1), kind, K, F)
 	in := build(sc)
 	defer in.Close()
 	ctx := context.Background()
@@ -549,32 +702,261 @@ func scenario(r *vh.Run, kind kit.Kind, K, rounds int, Fopt ...int) {
 		c   *kit.RawConn
 	}
 	var clients []cli
-	for k := 0; k < K; k++ {
+	sessOf := map[string]string{}
+	// connect performs dial + handshake of client number k (through the middlewares, like every request)
+	connect := func(k int) bool {
 		c, err := in.Dial(ctx)
 		if err != nil {
 			r.Fatal("dial: %v", err)
 		}
 		c.Headers[hdr] = fmt.Sprintf("tok-%d", k)
-		if err := c.Handshake(ctx); err != nil {
-			r.Fatal("handshake: %v", err)
-		}
 		clients = append(clients, cli{fmt.Sprintf("tok-%d", k), c})
+		if err := c.Handshake(ctx); err != nil {
+			if !sc.extended {
+				r.Fatal("handshake: %v", err)
+			}
+			r.Inconclusive(fmt.Sprintf("%s middlewares %s (%s): handshake of client %d failed: %v", kind, stackName(sc.stack), sc.mode(), k, err))
+			return false
+		}
+		sessOf[fmt.Sprintf("tok-%d", k)] = c.SessionID
+		return true
 	}
 	defer func() {
 		for _, c := range clients {
 			c.c.Close()
 		}
 	}()
-	maxInHandler.Store(0)
-	sessOf := map[string]string{}
-	for _, cl := range clients {
-		sessOf[cl.tok] = cl.c.SessionID
+	if !sc.sequential {
+		for k := 0; k < K; k++ {
+			if !connect(k) {
+				return
+			}
+		}
 	}
-	stageGating := true            // circuit breaker: a stage that does not reach its gate switches the lock-step rounds off
+	maxInHandler.Store(0)
+	// circuit breaker: a stage that does not reach its gate switches the lock-step rounds off. Without a middleware the
+	// filters and the resource handler do not know which request they run for while clients overlap: no lock-step rounds.
+	stageGating := len(sc.stack) > 0
 	allIn := map[string]bool{}     // "<round>/<what>": all K requests of that stage were inside at the same time
 	var notesAccepted atomic.Int64 // notification POSTs the server accepted
 	var sideFailed atomic.Int64    // prompts/get, resources/read answers that were not results
-	for round := 0; round < rounds; round++ {
+	// where names the configuration in messages; hstage the tool-handler stage in signatures
+	where := string(kind)
+	if sc.extended {
+		where = fmt.Sprintf("%s, middlewares %s, %s clients", kind, stackName(sc.stack), sc.mode())
+	}
+	detaches := sc.detaches()
+	hstage := "handler"
+	if detaches {
+		hstage = "handler(detached-ctx)"
+	}
+	handlerKey := fmt.Sprintf("%s|handler|K=%d|ctxfuncs=%d", kind, K, F)
+	if sc.extended {
+		handlerKey = fmt.Sprintf("%s|handler|mw=%s|%s", kind, stackName(sc.stack), sc.mode())
+	}
+	// inFlight tells the stages which request is being served (sequential mode only: there is exactly one)
+	inFlight := func(id string) {
+		if sc.sequential {
+			ri, _ := parseReq(id)
+			sc.cur.Store(ri)
+		}
+	}
+	// runClient is one client's mix of a round: one tool call (held at the gate of the round when clients overlap), three
+	// lists, a prompt, a resource, a notification. Overlapping clients issue the side requests next to the held call;
+	// in sequential mode every request is answered before the next one is sent.
+	runClient := func(cl cli, round int, gate, sfx string) {
+		csfx := "g"
+		if sc.sequential {
+			csfx = "f"
+		}
+		nonce := fmt.Sprintf("%s#call#%d#%s", cl.tok, round, csfx)
+		id := `"` + nonce + `"`
+		call := func() {
+			po := kit.PostOpts{WantID: id, Wait: 60 * time.Second}
+			if !sc.sequential {
+				po.Headers = map[string]string{"X-Verif-Barrier": fmt.Sprintf("%s/%d", gate, K)}
+			}
+			ex := cl.c.Post(ctx, []byte(fmt.Sprintf(`{"jsonrpc":"2.0","id":%s,"method":"tools/call","params":{"name":"ctxecho","arguments":{"gate":"%s","nonce":"%s"}}}`, id, gate, nonce)), po)
+			r.Eval(1)
+			f := answerFrame(ex.Frames)
+			var m struct {
+				Result struct {
+					Content []struct {
+						Text string `json:"text"`
+					} `json:"content"`
+				} `json:"result"`
+			}
+			var e echo
+			if json.Unmarshal([]byte(f), &m) != nil || len(m.Result.Content) != 1 || json.Unmarshal([]byte(m.Result.Content[0].Text), &e) != nil {
+				if ex.TimedOut || f == "" {
+					sc.curBroken.Store(true)
+					r.Inconclusive(fmt.Sprintf("%s K=%d round %d: no answer to the context echo call of %s (timed out: %v)", where, K, round, cl.tok, ex.TimedOut))
+					return
+				}
+				r.Violation(fmt.Sprintf("C13|%s|%s|call-failed", kind, hstage), fmt.Sprintf("%s: context echo call failed: %v", where, ex.Frames), nil)
+				return
+			}
+			wit := map[string]interface{}{"kind": kind, "requester": cl.tok, "session": cl.c.SessionID, "echo": e, "middlewares": stackName(sc.stack), "clients": sc.mode()}
+			// the session the handler obtained: below a detaching middleware only the documented fallback
+			// (ClientSessionFromContext) is left - whichever accessor answers, it must be the requester's session
+			seen := e.CSess
+			if seen == "" {
+				seen = e.Sess
+			}
+			switch {
+			case e.Tok1 != cl.tok:
+				r.Violation(fmt.Sprintf("C13|%s|%s|context-value-of-other-request", kind, hstage), fmt.Sprintf("%s: handler of %s saw the context value of %q", where, cl.tok, e.Tok1), wit)
+			case e.Tok2 != wantTok2(cl.tok, F):
+				r.Violation(fmt.Sprintf("C13|%s|%s|context-functions-order", kind, hstage), fmt.Sprintf("%s: second context function did not see the first one's value of this request: %q", where, e.Tok2), wit)
+			case e.Chain != wantChain(cl.tok, F):
+				r.Violation(fmt.Sprintf("C13|%s|%s|context-functions-chain", kind, hstage), fmt.Sprintf("%s: with %d context functions the handler of %s saw the chain %q, registration order on this request gives %q", where, F, cl.tok, e.Chain, wantChain(cl.tok, F)), wit)
+			case !detaches && !stateless(kind) && e.Sess != cl.c.SessionID:
+				r.Violation(fmt.Sprintf("C13|%s|handler|session-of-other-request", kind), fmt.Sprintf("%s: handler of session %s saw session %q", where, cl.c.SessionID, e.Sess), wit)
+			case !detaches && e.CSess != e.Sess:
+				r.Violation(fmt.Sprintf("C13|%s|handler|client-session-differs", kind), fmt.Sprintf("%s: ClientSessionFromContext (%q) and GetSessionFromContext (%q) disagree", where, e.CSess, e.Sess), wit)
+			case detaches && !stateless(kind) && seen != cl.c.SessionID:
+				r.Violation(fmt.Sprintf("C13|%s|%s|session-of-other-request", kind, hstage), fmt.Sprintf("%s: handler of session %s (%s) saw session %q (ClientSessionFromContext %q, GetSessionFromContext %q)", where, cl.c.SessionID, cl.tok, seen, e.CSess, e.Sess), wit)
+			case detaches && e.CSess != "" && e.Sess != "" && e.CSess != e.Sess:
+				r.Violation(fmt.Sprintf("C13|%s|%s|client-session-differs", kind, hstage), fmt.Sprintf("%s: ClientSessionFromContext (%q) and GetSessionFromContext (%q) disagree", where, e.CSess, e.Sess), wit)
+			case !detaches && (!e.HasSrv || e.Server != srvPtr):
+				r.Violation(fmt.Sprintf("C13|%s|handler|server-handle", kind), fmt.Sprintf("%s: tool handler's server handle is %q, the server is %s", where, e.Server, srvPtr), wit)
+			case detaches && e.HasSrv && e.Server != srvPtr:
+				r.Violation(fmt.Sprintf("C13|%s|%s|server-handle", kind, hstage), fmt.Sprintf("%s: tool handler's server handle is %q, the server is %s", where, e.Server, srvPtr), wit)
+			default:
+				r.Distinct(handlerKey)
+				if detaches {
+					// what a detached context loses is left open by the statement: counted, not judged
+					if !stateless(kind) {
+						r.Count("detached_handler_fallback_session_is_requesters", 1)
+					}
+					if e.Sess == "" {
+						r.Count("detached_handler_without_GetSessionFromContext", 1)
+					}
+					if !e.HasSrv {
+						r.Count("detached_handler_without_server_handle", 1)
+					}
+				}
+			}
+			// the notification sender belongs to this request: its notification must be on this POST stream only
+			if kind == kit.SSSE || kind == kit.SLSSE {
+				if detaches && !e.Sender {
+					r.Count("detached_handler_without_notification_sender", 1)
+					return
+				}
+				if !e.Sender || !e.Notified {
+					r.Violation(fmt.Sprintf("C13|%s|sender|absent", kind), "tool handler had no working notification sender on an SSE response", wit)
+				}
+				own, foreign := 0, 0
+				for _, fr := range ex.Frames {
+					if strings.Contains(fr, `"notifications/verif"`) {
+						if strings.Contains(fr, `"nonce":"`+nonce+`"`) {
+							own++
+						} else {
+							foreign++
+						}
+					}
+				}
+				if own != 1 || foreign != 0 {
+					r.Violation(fmt.Sprintf("C13|%s|sender|notification-on-other-stream", kind), fmt.Sprintf("%s: request %s: its POST stream carried %d own and %d foreign in-call notifications", where, nonce, own, foreign), wit)
+				} else {
+					r.Distinct(fmt.Sprintf("%s|sender|K=%d", kind, K))
+				}
+			}
+		}
+		var cwg sync.WaitGroup
+		cwg.Add(1)
+		if sc.sequential {
+			inFlight(nonce)
+			call()
+			cwg.Done()
+		} else {
+			go func() {
+				defer cwg.Done()
+				call()
+			}()
+		}
+		for _, l := range sideStages {
+			snonce := fmt.Sprintf("%s#%s#%d#%s", cl.tok, l.what, round, sfx)
+			lid := `"` + snonce + `"`
+			inFlight(snonce)
+			switch l.what {
+			case "note":
+				before := sc.noteCount()
+				ex := cl.c.Post(ctx, []byte(fmt.Sprintf(`{"jsonrpc":"2.0","method":"%s","params":{"nonce":"%s"}}`, l.method, snonce)), kit.PostOpts{NoWait: true})
+				r.Eval(1)
+				if ex.HTTP != nil && ex.HTTP.Status >= 200 && ex.HTTP.Status < 300 {
+					notesAccepted.Add(1)
+					if sc.sequential {
+						// the legacy server runs the notification handler detached from the POST: let it finish before the
+						// next request is sent (watchdog only; the observation is judged whenever it arrives)
+						for deadline := time.Now().Add(15 * time.Second); sc.noteCount() == before && time.Now().Before(deadline); {
+							time.Sleep(time.Millisecond)
+						}
+					}
+				}
+			case "prompts/get", "resources/read":
+				params := fmt.Sprintf(`{"name":"ctxecho-p","arguments":{"nonce":"%s"}}`, snonce)
+				if l.what == "resources/read" {
+					params = `{"uri":"res://ctxecho"}`
+				}
+				ex := cl.c.Post(ctx, []byte(fmt.Sprintf(`{"jsonrpc":"2.0","id":%s,"method":"%s","params":%s}`, lid, l.method, params)), kit.PostOpts{WantID: lid, Wait: 60 * time.Second})
+				r.Eval(1)
+				if ex.TimedOut {
+					sc.curBroken.Store(true)
+				}
+				if !strings.Contains(answerFrame(ex.Frames), `"result"`) {
+					sideFailed.Add(1)
+				}
+			default:
+				ex := cl.c.Post(ctx, []byte(fmt.Sprintf(`{"jsonrpc":"2.0","id":%s,"method":"%s"}`, lid, l.method)), kit.PostOpts{WantID: lid, Wait: 60 * time.Second})
+				r.Eval(1)
+				if ex.TimedOut {
+					sc.curBroken.Store(true)
+					r.Inconclusive(fmt.Sprintf("%s K=%d round %d: no answer to %s of %s", where, K, round, l.method, cl.tok))
+					continue
+				}
+				got := namesOf(answerFrame(ex.Frames), l.field, l.key)
+				want := visible(l.prefix, cl.tok, K)
+				// ctxecho / ctxecho-p / ctxecho-r are hidden by the filters for everyone (no visible name matches them)
+				if strings.Join(got, ",") != strings.Join(want, ",") {
+					r.Violation(fmt.Sprintf("C13|%s|filter|%s|list-of-other-caller", kind, l.method), fmt.Sprintf("%s: %s for %s returned %v, the filter admits %v for this caller", where, l.method, cl.tok, got, want),
+						map[string]interface{}{"requester": cl.tok, "got": got, "want": want, "middlewares": stackName(sc.stack), "clients": sc.mode()})
+				} else if sc.extended {
+					r.Distinct(fmt.Sprintf("%s|filter|%s|mw=%s|%s", kind, l.method, stackName(sc.stack), sc.mode()))
+				} else {
+					r.Distinct(fmt.Sprintf("%s|filter|%s|K=%d", kind, l.method, K))
+				}
+			}
+		}
+		cwg.Wait()
+	}
+	// every observation of a round is in when its requests are answered (each is recorded before its request is
+	// answered), except those of the legacy SSE server's notification handlers, which run detached from the POST: wait for
+	// them (watchdog, not an oracle; after one miss the wait is not repeated, late observations are judged with a later
+	// round)
+	awaitNotes := func(round int) {
+		for deadline := time.Now().Add(15 * time.Second); sc.noteWaits < 1 && sc.noteCount() < notesAccepted.Load(); {
+			if time.Now().After(deadline) {
+				sc.noteWaits++
+				r.Inconclusive(fmt.Sprintf("%s K=%d round %d: %d of %d accepted notifications reached the notification handler", where, K, round, sc.noteCount(), notesAccepted.Load()))
+				break
+			}
+			time.Sleep(time.Millisecond)
+		}
+	}
+	for round := 0; round < rounds && sc.sequential; round++ {
+		// strictly sequential: client 0 alone (in round 0 the others have not even connected yet), then client 1 alone, ...
+		for k := 0; k < K; k++ {
+			if round == 0 && !connect(k) {
+				return
+			}
+			runClient(clients[k], round, "", "f")
+			r.Count("sequential_client_turns", 1)
+		}
+		awaitNotes(round)
+		judge(r, sc, sc.take(), sessOf, allIn)
+	}
+	for round := 0; round < rounds && !sc.sequential; round++ {
 		gate := sc.callGate(round)
 		// odd rounds are lock-step: every stage of the K clients meets at its own gate while the K tool calls are held;
 		// even rounds leave the side requests free-running next to the held calls
@@ -588,117 +970,14 @@ func scenario(r *vh.Run, kind kit.Kind, K, rounds int, Fopt ...int) {
 			wg.Add(1)
 			go func(cl cli) {
 				defer wg.Done()
-				// a mix: one gated call (overlaps with everyone else's), three lists, a prompt, a resource, a notification
-				nonce := fmt.Sprintf("%s#call#%d#g", cl.tok, round)
-				id := `"` + nonce + `"`
-				var cwg sync.WaitGroup
-				cwg.Add(1)
-				go func() {
-					defer cwg.Done()
-					ex := cl.c.Post(ctx, []byte(fmt.Sprintf(`{"jsonrpc":"2.0","id":%s,"method":"tools/call","params":{"name":"ctxecho","arguments":{"gate":"%s","nonce":"%s"}}}`, id, gate, nonce)), kit.PostOpts{WantID: id, Wait: 60 * time.Second, Headers: map[string]string{"X-Verif-Barrier": fmt.Sprintf("%s/%d", gate, K)}})
-					r.Eval(1)
-					f := answerFrame(ex.Frames)
-					var m struct {
-						Result struct {
-							Content []struct {
-								Text string `json:"text"`
-							} `json:"content"`
-						} `json:"result"`
-					}
-					var e echo
-					if json.Unmarshal([]byte(f), &m) != nil || len(m.Result.Content) != 1 || json.Unmarshal([]byte(m.Result.Content[0].Text), &e) != nil {
-						if ex.TimedOut || f == "" {
-							r.Inconclusive(fmt.Sprintf("%s K=%d round %d: no answer to the context echo call of %s (timed out: %v)", kind, K, round, cl.tok, ex.TimedOut))
-							return
-						}
-						r.Violation(fmt.Sprintf("C13|%s|handler|call-failed", kind), fmt.Sprintf("%s: context echo call failed: %v", kind, ex.Frames), nil)
-						return
-					}
-					wit := map[string]interface{}{"kind": kind, "requester": cl.tok, "session": cl.c.SessionID, "echo": e}
-					switch {
-					case e.Tok1 != cl.tok:
-						r.Violation(fmt.Sprintf("C13|%s|handler|context-value-of-other-request", kind), fmt.Sprintf("%s: handler of %s saw the context value of %q", kind, cl.tok, e.Tok1), wit)
-					case e.Tok2 != wantTok2(cl.tok, F):
-						r.Violation(fmt.Sprintf("C13|%s|handler|context-functions-order", kind), fmt.Sprintf("%s: second context function did not see the first one's value of this request: %q", kind, e.Tok2), wit)
-					case e.Chain != wantChain(cl.tok, F):
-						r.Violation(fmt.Sprintf("C13|%s|handler|context-functions-chain", kind), fmt.Sprintf("%s: with %d context functions the handler of %s saw the chain %q, registration order on this request gives %q", kind, F, cl.tok, e.Chain, wantChain(cl.tok, F)), wit)
-					case !stateless(kind) && e.Sess != cl.c.SessionID:
-						r.Violation(fmt.Sprintf("C13|%s|handler|session-of-other-request", kind), fmt.Sprintf("%s: handler of session %s saw session %q", kind, cl.c.SessionID, e.Sess), wit)
-					case e.CSess != e.Sess:
-						r.Violation(fmt.Sprintf("C13|%s|handler|client-session-differs", kind), fmt.Sprintf("%s: ClientSessionFromContext (%q) and GetSessionFromContext (%q) disagree", kind, e.CSess, e.Sess), wit)
-					case !e.HasSrv || e.Server != srvPtr:
-						r.Violation(fmt.Sprintf("C13|%s|handler|server-handle", kind), fmt.Sprintf("%s: tool handler's server handle is %q, the server is %s", kind, e.Server, srvPtr), wit)
-					default:
-						r.Distinct(fmt.Sprintf("%s|handler|K=%d|ctxfuncs=%d", kind, K, F))
-					}
-					// the notification sender belongs to this request: its notification must be on this POST stream only
-					if kind == kit.SSSE || kind == kit.SLSSE {
-						if !e.Sender || !e.Notified {
-							r.Violation(fmt.Sprintf("C13|%s|sender|absent", kind), "tool handler had no working notification sender on an SSE response", wit)
-						}
-						own, foreign := 0, 0
-						for _, fr := range ex.Frames {
-							if strings.Contains(fr, `"notifications/verif"`) {
-								if strings.Contains(fr, `"nonce":"`+nonce+`"`) {
-									own++
-								} else {
-									foreign++
-								}
-							}
-						}
-						if own != 1 || foreign != 0 {
-							r.Violation(fmt.Sprintf("C13|%s|sender|notification-on-other-stream", kind), fmt.Sprintf("%s: request %s: its POST stream carried %d own and %d foreign in-call notifications", kind, nonce, own, foreign), wit)
-						} else {
-							r.Distinct(fmt.Sprintf("%s|sender|K=%d", kind, K))
-						}
-					}
-				}()
-				for _, l := range sideStages {
-					snonce := fmt.Sprintf("%s#%s#%d#%s", cl.tok, l.what, round, sfx)
-					lid := `"` + snonce + `"`
-					switch l.what {
-					case "note":
-						ex := cl.c.Post(ctx, []byte(fmt.Sprintf(`{"jsonrpc":"2.0","method":"%s","params":{"nonce":"%s"}}`, l.method, snonce)), kit.PostOpts{NoWait: true})
-						r.Eval(1)
-						if ex.HTTP != nil && ex.HTTP.Status >= 200 && ex.HTTP.Status < 300 {
-							notesAccepted.Add(1)
-						}
-					case "prompts/get", "resources/read":
-						params := fmt.Sprintf(`{"name":"ctxecho-p","arguments":{"nonce":"%s"}}`, snonce)
-						if l.what == "resources/read" {
-							params = `{"uri":"res://ctxecho"}`
-						}
-						ex := cl.c.Post(ctx, []byte(fmt.Sprintf(`{"jsonrpc":"2.0","id":%s,"method":"%s","params":%s}`, lid, l.method, params)), kit.PostOpts{WantID: lid, Wait: 60 * time.Second})
-						r.Eval(1)
-						if !strings.Contains(answerFrame(ex.Frames), `"result"`) {
-							sideFailed.Add(1)
-						}
-					default:
-						ex := cl.c.Post(ctx, []byte(fmt.Sprintf(`{"jsonrpc":"2.0","id":%s,"method":"%s"}`, lid, l.method)), kit.PostOpts{WantID: lid, Wait: 60 * time.Second})
-						r.Eval(1)
-						if ex.TimedOut {
-							r.Inconclusive(fmt.Sprintf("%s K=%d round %d: no answer to %s of %s", kind, K, round, l.method, cl.tok))
-							continue
-						}
-						got := namesOf(answerFrame(ex.Frames), l.field, l.key)
-						want := visible(l.prefix, cl.tok, K)
-						// ctxecho / ctxecho-p / ctxecho-r are hidden by the filters for everyone (no visible name matches them)
-						if strings.Join(got, ",") != strings.Join(want, ",") {
-							r.Violation(fmt.Sprintf("C13|%s|filter|%s|list-of-other-caller", kind, l.method), fmt.Sprintf("%s: %s for %s returned %v, the filter admits %v for this caller", kind, l.method, cl.tok, got, want),
-								map[string]interface{}{"requester": cl.tok, "got": got, "want": want})
-						} else {
-							r.Distinct(fmt.Sprintf("%s|filter|%s|K=%d", kind, l.method, K))
-						}
-					}
-				}
-				cwg.Wait()
+				runClient(cl, round, gate, sfx)
 			}(cl)
 		}
 		// all K gated handlers are inside at once, then released together
 		got := kit.G.AwaitWaiters(gate, K, 20*time.Second)
 		r.Max("handlers_overlapping_"+string(kind), int64(got))
 		if got < K {
-			r.Inconclusive(fmt.Sprintf("%s K=%d round %d: only %d handlers overlapped", kind, K, round, got))
+			r.Inconclusive(fmt.Sprintf("%s K=%d round %d: only %d handlers overlapped", where, K, round, got))
 		} else {
 			allIn[fmt.Sprintf("%d/call", round)] = true
 		}
@@ -712,7 +991,7 @@ func scenario(r *vh.Run, kind kit.Kind, K, rounds int, Fopt ...int) {
 					if n == K {
 						allIn[fmt.Sprintf("%d/%s", round, l.what)] = true
 					} else {
-						r.Inconclusive(fmt.Sprintf("%s K=%d round %d: only %d of %d %s requests reached the stage gate; lock-step rounds switched off for this scenario", kind, K, round, n, K, l.what))
+						r.Inconclusive(fmt.Sprintf("%s K=%d round %d: only %d of %d %s requests reached the stage gate; lock-step rounds switched off for this scenario", where, K, round, n, K, l.what))
 						stageGating = false
 					}
 				}
@@ -721,27 +1000,19 @@ func scenario(r *vh.Run, kind kit.Kind, K, rounds int, Fopt ...int) {
 		}
 		sc.open(gate)
 		wg.Wait()
-		// every observation of the round is in now (each is recorded before its request is answered), except those of the
-		// legacy SSE server's notification handlers, which run detached from the POST: wait for them (watchdog, not an
-		// oracle; after one miss the wait is not repeated, late observations are judged with a later round)
-		for deadline := time.Now().Add(15 * time.Second); sc.noteWaits < 1 && sc.noteCount() < notesAccepted.Load(); {
-			if time.Now().After(deadline) {
-				sc.noteWaits++
-				r.Inconclusive(fmt.Sprintf("%s K=%d round %d: %d of %d accepted notifications reached the notification handler", kind, K, round, sc.noteCount(), notesAccepted.Load()))
-				break
-			}
-			time.Sleep(time.Millisecond)
-		}
+		awaitNotes(round)
 		judge(r, sc, sc.take(), sessOf, allIn)
 	}
 	if n := sideFailed.Load(); n > 0 {
-		r.Inconclusive(fmt.Sprintf("%s K=%d: %d prompts/get / resources/read requests were not answered with a result", kind, K, n))
+		r.Inconclusive(fmt.Sprintf("%s K=%d: %d prompts/get / resources/read requests were not answered with a result", where, K, n))
 	}
 	time.Sleep(20 * time.Millisecond)
 	judge(r, sc, sc.take(), sessOf, allIn) // stragglers
 	finishScenario(r, sc)
 	r.Max("context_function_barriers_met", barrierMet.Load())
-	r.Sample(map[string]interface{}{"kind": kind, "clients": K, "context_functions": F, "rounds": rounds, "max_handlers_overlapping": maxInHandler.Load()})
+	if !sc.extended && kind == kit.SJSON && K >= 16 {
+		r.Sample(map[string]interface{}{"kind": kind, "clients": K, "context_functions": F, "rounds": rounds, "max_handlers_overlapping": maxInHandler.Load()})
+	}
 }
 
 // tokOfValue: every value the stages note on a session starts with the token of the client it was written for
@@ -774,9 +1045,17 @@ func judge(r *vh.Run, sc *scen, all []obs, sessOf map[string]string, allIn map[s
 	stats, sampled := sc.stats, sc.sampled
 	// the middleware notes owner and request id before the later stages of the same request run: they must find them
 	wroteByMW := map[string]bool{}
+	outer := map[string]sessView{} // request id -> the session the outermost middleware was handed by the library
 	for _, o := range all {
 		if o.Stage == "middleware" && o.Wrote {
 			wroteByMW[o.Req.ID] = true
+		}
+		if o.Stage == "middleware" && o.Attrib {
+			if v := o.CSess; v.Has {
+				outer[o.Req.ID] = v
+			} else if v := o.Sess; v.Has {
+				outer[o.Req.ID] = v
+			}
 		}
 	}
 	for _, o := range all {
@@ -791,7 +1070,12 @@ func judge(r *vh.Run, sc *scen, all []obs, sessOf map[string]string, allIn map[s
 			st = &stageStat{}
 			stats[o.Stage] = st
 		}
-		sig := func(symptom string) string { return fmt.Sprintf("C13|%s|%s|%s", kind, o.Stage, symptom) }
+		// stageName: a stage below a detaching middleware is a class of its own
+		stageName := o.Stage
+		if o.Detached {
+			stageName += "(detached-ctx)"
+		}
+		sig := func(symptom string) string { return fmt.Sprintf("C13|%s|%s|%s", kind, stageName, symptom) }
 		// context values (the tool handler's are judged on the wire, from its echo)
 		if o.Stage != "handler" {
 			ctxBad := o.Tok != tok || o.Tok2 != wantTok2(tok, sc.F) || o.Chain != wantChain(tok, sc.F)
@@ -814,8 +1098,14 @@ func judge(r *vh.Run, sc *scen, all []obs, sessOf map[string]string, allIn map[s
 		}
 		if !s.Has {
 			r.Count("observations_without_session_"+string(kind), 1)
+			if o.Detached && o.Stage != "handler" {
+				// below a detaching middleware the library's own context keys are gone; only the tool handler has a
+				// documented fallback (the session is injected again for it). Left open by the statement: counted.
+				r.Count("detached_stage_without_session", 1)
+				continue
+			}
 			if kind.Stateful() || kind == kit.LSSE {
-				if o.Stage == "middleware" || o.Stage == "handler" {
+				if o.Stage == "middleware" || o.Stage == "middleware-inner" || o.Stage == "handler" {
 					st.bad++
 					r.Violation(sig("session-of-other-request"), fmt.Sprintf("%s: %s processing request %s saw no session, the requester's is %q", kind, o.Stage, o.Req.ID, sessOf[tok]), o)
 				}
@@ -832,6 +1122,20 @@ func judge(r *vh.Run, sc *scen, all []obs, sessOf map[string]string, allIn map[s
 			st.bad++
 			r.Violation(sig("session-of-other-request"), fmt.Sprintf("%s: %s processing request %s saw session %q, the requester's is %q", kind, o.Stage, o.Req.ID, s.ID, sessOf[tok]), o)
 			continue
+		}
+		// the session OBJECT: while a request is being processed its outermost middleware holds the session the library
+		// handed it; a stage further in (same request, so both are alive) that is handed another object has been given a
+		// session that is not the one of this request (same id or not)
+		if ov, ok := outer[o.Req.ID]; ok && o.Stage != "middleware" && o.Stage != "notification-handler" {
+			if ov.Ptr != s.Ptr {
+				st.bad++
+				r.Violation(sig("session-object-of-other-request"), fmt.Sprintf("%s: %s processing request %s was handed the session object %s (id %q); the library handed the outermost middleware of the same request %s (id %q)", kind, o.Stage, o.Req.ID, s.Ptr, s.ID, ov.Ptr, ov.ID), o)
+				continue
+			}
+			r.Count("same_request_session_objects_compared", 1)
+			if o.Detached {
+				st.detachedOwn++
+			}
 		}
 		// session data
 		bad := false
@@ -871,7 +1175,13 @@ func judge(r *vh.Run, sc *scen, all []obs, sessOf map[string]string, allIn map[s
 			st.bad++
 			continue
 		}
-		if !sampled[o.Stage] && K == 2 && sc.F == 2 && o.Req.Round == 1 {
+		if sc.extended && o.Detached && o.Stage == "handler" && o.Req.Round == 1 && o.Req.Tok != "tok-0" && !extSampled[string(kind)+sc.mode()] && len(sc.stack) == 2 {
+			extSampled[string(kind)+sc.mode()] = true
+			if kind == kit.SJSON || (kind == kit.SLSSE && sc.sequential) {
+				r.Sample(map[string]interface{}{"kind": kind, "handler_below_detaching_middleware": o})
+			}
+		}
+		if !sc.extended && !sampled[o.Stage] && K == 2 && sc.F == 2 && o.Req.Round == 1 {
 			sampled[o.Stage] = true
 			if (kind == kit.SLJSON && (o.Stage == "handler" || o.Stage == "filter|tools/list")) || (kind == kit.SJSON && o.Stage == "notification-handler") {
 				r.Sample(map[string]interface{}{"kind": kind, "session_observation": o})
@@ -961,12 +1271,27 @@ func judge(r *vh.Run, sc *scen, all []obs, sessOf map[string]string, allIn map[s
 	}
 }
 
+var extSampled = map[string]bool{}
+
 // finishScenario turns what the judge accumulated over the rounds of a scenario into evidence.
 func finishScenario(r *vh.Run, sc *scen) {
 	kind, K := sc.kind, sc.K
 	for stage, st := range sc.stats {
 		r.Count("session_data_own_reads", int64(st.ownReads))
 		r.Count("observations_with_session", int64(st.withSession))
+		if sc.extended {
+			// the middleware-style sweep: (kind, stack, mode, stage) is covered when the stage was handed a session and
+			// every one of them was the request's own
+			r.Count("mwsweep_observations_with_session", int64(st.withSession))
+			r.Count("mwsweep_detached_session_objects_verified", int64(st.detachedOwn))
+			if sc.sequential {
+				r.Count("mwsweep_sequential_observations_with_session", int64(st.withSession))
+			}
+			if st.withSession > 0 && st.bad == 0 {
+				r.Distinct(fmt.Sprintf("%s|mw=%s|%s|%s", kind, stackName(sc.stack), sc.mode(), stage))
+			}
+			continue
+		}
 		if stage == "middleware" && st.withSession+st.bad > 0 {
 			r.Distinct(fmt.Sprintf("%s|middleware|K=%d", kind, K))
 		}
@@ -974,7 +1299,7 @@ func finishScenario(r *vh.Run, sc *scen) {
 			r.Distinct(fmt.Sprintf("%s|session-data|%s|K=%d", kind, stage, K))
 		}
 	}
-	if sc.stats["middleware"] == nil {
+	if sc.stats["middleware"] == nil && len(sc.stack) > 0 {
 		// the middleware ran for no request at all: nothing about it was observed
 		r.Inconclusive(fmt.Sprintf("%s K=%d: no middleware observation", kind, K))
 	}
@@ -997,9 +1322,51 @@ func main() {
 			scenario(r, kind, r.Pick(4, 8), r.Pick(8, 120), F)
 		}
 	}
+	// what middlewares do with the context they pass inward, and what the library might compute once and reuse: stacks of
+	// 0-3 middlewares of the five styles, clients overlapping and strictly one after the other
+	stacks := [][]string{
+		{}, {"pass"}, {"derive"}, {"detach"}, {"detach-timeout"}, {"goroutine"},
+		{"pass", "pass"}, {"detach", "detach"}, {"derive", "detach"}, {"detach", "derive"}, {"goroutine", "detach-timeout"}, {"detach", "goroutine"},
+		{"pass", "derive", "goroutine"}, {"detach", "detach", "detach"}, {"derive", "detach-timeout", "pass"}, {"goroutine", "goroutine", "detach"},
+	}
+	if !r.Quick() {
+		stacks = [][]string{{}}
+		for _, a := range allStyles {
+			stacks = append(stacks, []string{a})
+			for _, b := range allStyles {
+				stacks = append(stacks, []string{a, b})
+			}
+		}
+	}
+	rng := r.Rand("middleware-stacks")
+	for i, n := 0, r.Pick(4, 40); i < n; i++ {
+		st := make([]string, 3)
+		if r.Quick() {
+			st = make([]string, 1+rng.Intn(3))
+		}
+		for j := range st {
+			st[j] = allStyles[rng.Intn(len(allStyles))]
+		}
+		stacks = append(stacks, st)
+	}
+	for _, stack := range stacks {
+		for _, kind := range []kit.Kind{kit.SJSON, kit.SSSE, kit.SLJSON, kit.SLSSE, kit.LSSE} {
+			for _, sequential := range []bool{false, true} {
+				F := 3
+				if kind == kit.LSSE {
+					F = 2
+				}
+				run(r, &scen{kind: kind, K: 3, F: F, stack: stack, sequential: sequential, extended: true}, r.Pick(2, 6))
+			}
+		}
+		r.SetAdd("middleware_stacks", stackName(stack))
+	}
+	if r.Counter("mwsweep_detached_session_objects_verified") == 0 || r.Counter("detached_handler_fallback_session_is_requesters") == 0 || r.Counter("mwsweep_sequential_observations_with_session") == 0 {
+		r.Fatal("the middleware-style sweep observed no session below a detaching middleware / none in sequential mode: that part of the property was not exercised")
+	}
 	if r.Counter("session_data_own_reads") == 0 || r.Counter("live_session_objects_compared") == 0 || r.Counter("stateless_live_session_objects_compared") == 0 {
 		r.Fatal("no session data was read back / no live session objects were compared (stateless servers included): the session part of the property was not exercised")
 	}
-	r.Finish("K = 2 / 8 / 16-32 raw clients, each with a unique header token, against Streamable (stateful / stateless, JSON / SSE answers; sessions disabled with K = 8) and legacy SSE servers configured with two HTTP context functions (the second derives its value from the first's; a second sweep registers 1, 3-7, 9 and 12 of them, each appending to a chain value, and lets the K requests of a round meet inside the first context function so that the context-function stages overlap), a tool / prompt / resource list filter keyed on the token, and a middleware; per round every client issues one gated tool call (all K handlers are inside at the same time, then released together) and, next to it, three list requests, a prompts/get, a resources/read and a notification with a registered server-side handler; in every second round these six stages are lock-step too (the K requests of a stage meet at a gate inside the filter / handler while the K calls are held). Each echo (context values, session via both accessors, server handle, notification sender by effect) and each list must be the requester's own; every stage records the session object it is handed (pointer, id, both accessors) and uses it as state: the middleware (the notification handler on its path) reads what is on the session, notes the derived token and the request id on it, every stage notes the request id under its own key, waits, and reads all of it back - a value noted for another client is a violation in every configuration, a note of the same request that is gone is one, and requests of different clients inside at the same time must hold different session objects. Observations are joined to requests through the request id. Distinct = (server kind, stage, K).",
-		[]string{"presence is required only where documented: context-function values everywhere (not in notification handlers), the session in handlers and middlewares of servers that issue session ids, server handle and sender in tool handlers", "stateless sessions: the statement promises isolation between clients; that the library uses one temporary session per request is not part of it, so a value carried over from another request of the SAME client is only counted (stateless_carry_over_same_client), not a violation", "session objects are compared by pointer only between requests that were inside at the same time (address reuse after a request has ended proves nothing)"})
+	r.Finish("K = 2 / 8 / 16-32 raw clients, each with a unique header token, against Streamable (stateful / stateless, JSON / SSE answers; sessions disabled with K = 8) and legacy SSE servers configured with two HTTP context functions (the second derives its value from the first's; a second sweep registers 1, 3-7, 9 and 12 of them, each appending to a chain value, and lets the K requests of a round meet inside the first context function so that the context-function stages overlap), a tool / prompt / resource list filter keyed on the token, and a middleware; per round every client issues one gated tool call (all K handlers are inside at the same time, then released together) and, next to it, three list requests, a prompts/get, a resources/read and a notification with a registered server-side handler; in every second round these six stages are lock-step too (the K requests of a stage meet at a gate inside the filter / handler while the K calls are held). Each echo (context values, session via both accessors, server handle, notification sender by effect) and each list must be the requester's own; every stage records the session object it is handed (pointer, id, both accessors) and uses it as state: the middleware (the notification handler on its path) reads what is on the session, notes the derived token and the request id on it, every stage notes the request id under its own key, waits, and reads all of it back - a value noted for another client is a violation in every configuration, a note of the same request that is gone is one, and requests of different clients inside at the same time must hold different session objects. Observations are joined to requests through the request id. A last sweep varies what the middlewares do with the context they pass inward - stacks of 0 to 3 middlewares (a fixed list, plus stacks drawn from the seed; thorough: all stacks of length <= 2) of the styles pass-through, derive (WithValue + WithTimeout), detach (a fresh context.Background(), optionally with a timeout, carrying only the copied context-function values, none of the library's session / server / sender keys) and run-next-in-a-goroutine, every middleware treating every request (handshake included) in its style - on Streamable stateful / stateless (JSON / SSE) and legacy SSE, with 3 clients overlapping as before and strictly sequentially (client 0 connects and is served alone, one request at a time, then client 1, ...; repeated). Every middleware of the stack observes like the others; the session any stage obtains through either accessor must be the requester's (id) and, within one request, the very object the library handed the outermost middleware; the context-function values must be the request's own. Below a detaching middleware only the tool handler's ClientSessionFromContext (the documented fallback) is required to be there; a missing GetSessionFromContext / server handle / notification sender / session in filters, prompt and resource handlers and inner middlewares is counted (detached_*), not judged. Distinct = (server kind, stage, K) resp. (server kind, middleware stack, overlapping | sequential, stage).",
+		[]string{"presence is required only where documented: context-function values everywhere (not in notification handlers), the session in handlers and middlewares of servers that issue session ids, server handle and sender in tool handlers", "stateless sessions: the statement promises isolation between clients; that the library uses one temporary session per request is not part of it, so a value carried over from another request of the SAME client is only counted (stateless_carry_over_same_client), not a violation", "session objects are compared by pointer only between requests that were inside at the same time, and between the stages of one request while its outermost middleware still holds the session (address reuse after a request has ended proves nothing)", "a middleware that replaces the context with one kept from ANOTHER request is application misbehaviour outside the statement: not exercised", "what a detached context (fresh context.Background() + copied application values) still offers besides the tool handler's session fallback is left open by the statement: counted only"})
 }
